@@ -115,14 +115,16 @@ def piecewise_linear(v, mapping):
 
 
 def renormalize(v, new_min, new_def, new_max, dist_neg=ONE, dist_pos=ONE):
-    """New normalised coordinate of the old normalised coordinate `v` when the axis is
-    restricted to [new_min, new_max] with default new_def (all in old normalised units).
+    """New normalised coordinate of the old normalised coordinate `v`, new_min <= v <= new_max,
+    when the axis is restricted to [new_min, new_max] with default new_def (all in old
+    normalised units).
 
     Derivation from fvar: old normalised coordinates are linear in user space on each side
     of the old default, user = v * dist_pos for v >= 0, v * dist_neg for v < 0 (dist_* =
     user-space length of each half of the old axis).  The new axis record has user-space
-    (min, default, max) = (u(new_min), u(new_def), u(new_max)); normalise against it
-    without clamping (values outside extrapolate linearly, as tents may extend outside)."""
+    (min, default, max) = (u(new_min), u(new_def), u(new_max)); normalise against it.
+    Outside [new_min, new_max] nothing is defined (instances are clamped to the axis)."""
+    assert new_min <= v <= new_max
 
     def user(x):
         return x * dist_pos if x >= 0 else x * dist_neg
@@ -131,11 +133,7 @@ def renormalize(v, new_min, new_def, new_max, dist_neg=ONE, dist_pos=ONE):
     if u == udef:
         return ZERO
     if u > udef:
-        if umax == udef:
-            return None  # nothing above the default on the new axis
         return (u - udef) / (umax - udef)
-    if umin == udef:
-        return None
     return (u - udef) / (udef - umin)
 
 
@@ -144,7 +142,7 @@ def _iup_axis(x, x1, d1, x2, d2):
     """Inferred delta along one axis for a point with coordinate x between the reference
     points (x1, d1) and (x2, d2)  (gvar: 'Inferred deltas for un-referenced point numbers')."""
     if x1 == x2:
-        return d1 if d1 == d2 else ZERO
+        return d1 if d1 == d2 else 0
     if x1 > x2:
         x1, x2, d1, d2 = x2, x1, d2, d1
     if x <= x1:
